@@ -1,14 +1,16 @@
 """C16 — directory population mirrors the file tree under the rules (spec/Populator.tla)."""
 import contextlib
+import json
 import os
 import shutil
 import tempfile
 
-from .. import common, replay, tla
+from .. import common, tla
+from .. import replay as replay_mod      # `replay` is this module's --replay entry point
 from ..adapters.populator import PopulatorAdapter, materialise, path_str
 
-INVARIANTS = ['TypeOK', 'ColumnsAsStated', 'EveryAcceptedFileReachable', 'DirsOnTheWayAreMaps', 'NothingElseAdded',
-              'FactoryGotPathAndArgs', 'ErrorsAsStated']
+INVARIANTS = ['TypeOK', 'ColumnsAsStated', 'EveryAcceptedFileReachable', 'KeyIsRelPath', 'DirsOnTheWayAreMaps',
+              'NothingElseAdded', 'FactoryGotPathAndArgs', 'NotADirectoryIsValueError', 'MissingSkipped', 'ErrorsAsStated']
 PROPERTIES = ['NestKeepsOlderBeneath', 'NoNestReplaces']
 LENIENT = ['glob order is a choice of the specification: files whose keys coincide may appear in either order',
            'the split of a map\'s handles into ChainMap layers is not compared, only each key\'s column (visible handle first)',
@@ -39,12 +41,21 @@ def memo_parse():
         tla.parse_value = orig
 
 
-def check_and_replay(res, module, family):
-    desper = common.import_desper()
+def module_of(family):
+    return 'PopulatorMCT' if family.startswith('Sc_t') and family != 'Sc_tiny' else 'PopulatorMC'
+
+
+def graph_of(res, family):
     with memo_parse():
         # 4 workers: TLC's dot writer is serialised, more workers only contend for it
-        r, g = res.model_check(module, family, consts(), invariants=INVARIANTS, properties=PROPERTIES,
-                               overrides={'Scenarios': family}, dump=True, workers=4)
+        _r, g = res.model_check(module_of(family), family, consts(), invariants=INVARIANTS, properties=PROPERTIES,
+                                overrides={'Scenarios': family}, dump=True, workers=4)
+    return g
+
+
+def check_and_replay(res, family):
+    desper = common.import_desper()
+    g = graph_of(res, family)
     scenarios = [g.states[i]['sc'] for i in g.init]
     base = tempfile.mkdtemp(prefix='c16-trees-', dir=res.scratch)
     try:
@@ -53,11 +64,11 @@ def check_and_replay(res, module, family):
         def factory():
             return PopulatorAdapter(desper, roots)
 
-        st = replay.run_paths(g, factory, replay.edge_paths(g))
+        st = replay_mod.run_paths(g, factory, replay_mod.edge_paths(g))
         res.absorb(st, family + ':every-call-outcome', g)
         if not st.n_violations:
             # a behaviour is at most two calls: depth 2 enumerates every behaviour of the graph
-            st = replay.run_paths(g, factory, replay.all_paths(g, 2))
+            st = replay_mod.run_paths(g, factory, replay_mod.all_paths(g, 2))
             res.absorb(st, family + ':all-behaviours', g)
     finally:
         shutil.rmtree(base, ignore_errors=True)
@@ -91,16 +102,38 @@ def run(res):
     res.assumptions.extend(LENIENT)
     if res.tier == 'thorough':
         for fam in ('Sc_t1', 'Sc_t2', 'Sc_t3', 'Sc_t4', 'Sc_t5', 'Sc_t6'):
-            g = check_and_replay(res, 'PopulatorMCT', fam)
+            g = check_and_replay(res, fam)
             if res.violations:
                 break
     else:
-        g = check_and_replay(res, 'PopulatorMC', 'Sc_quick')
+        g = check_and_replay(res, 'Sc_quick')
     sample(res, g, lambda sc: len(sc['calls']) == 2 and len(sc['files']) >= 2)
     sample(res, g, lambda sc: any(r['exts'] for c in sc['calls'] for r in c['add']) and len(sc['dirs']) >= 2)
     # non-vacuity: as implemented, the model violates the properties
     res.model_check('PopulatorMC', 'asimpl_D18', consts(valueerror=False), invariants=INVARIANTS, properties=PROPERTIES,
-                    overrides={'Scenarios': 'Sc_tiny'}, expect_violation=('ErrorsAsStated',), count=False, workers=4)
+                    overrides={'Scenarios': 'Sc_tiny'}, expect_violation=('NotADirectoryIsValueError', 'ErrorsAsStated'), count=False, workers=4)
     res.model_check('PopulatorMC', 'asimpl_nonest', consts(drops=False), invariants=INVARIANTS, properties=PROPERTIES,
                     overrides={'Scenarios': 'Sc_tiny'}, expect_violation=('ColumnsAsStated', 'NoNestReplaces'),
                     count=False, workers=4)
+
+
+def replay(res, path):
+    """./check C16 --replay FILE: run the one history of a replay file again."""
+    with open(path) as f:
+        doc = json.load(f)
+    detail, family = doc['detail'], doc['summary'].split(':')[0]
+    g = graph_of(res, family)
+    starts = [i for i in g.init if tla.to_json(g.states[i]) == detail['init_state']]
+    if not starts:
+        raise common.MachineryError('the scenario of %s is not in family %s' % (path, family))
+    base = tempfile.mkdtemp(prefix='c16-trees-', dir=res.scratch)
+    try:
+        adapter = PopulatorAdapter(common.import_desper(), materialise([g.states[starts[0]]['sc']], base))
+        st = replay_mod.Stats()
+        v = replay_mod.walk(g, adapter, [(n, tuple(a)) for n, a in detail['labels']], None, st, start=starts[0])
+    finally:
+        shutil.rmtree(base, ignore_errors=True)
+    if v:
+        st.violations.append(v)
+        st.n_violations = 1
+    res.absorb(st, family + ':replay', g)
